@@ -113,6 +113,9 @@ func oracleC02() *Result {
 	for _, c := range regressionInputs("C02") {
 		add(c, "regression")
 	}
+	for _, e := range chainSources {
+		add([]byte(e), "chains")
+	}
 	for _, e := range edgeSources {
 		add([]byte(e), "edge")
 	}
